@@ -10,6 +10,10 @@
 (*  rle mode (scaled replays at the 2^7 / 2^15 / 2^16 counter widths):      *)
 (*     T = [kind, n, runs, rows]: keys given as runs <<group, length>>; the *)
 (*     selection is compared with the definition evaluated on the runs.     *)
+(*  kernel mode (numba.find_first_n / find_last_n with a boolean mask):     *)
+(*     T = [kmode, kind head|tail, n, keys (group ids 1..ngroups or Null),  *)
+(*     sel (mask bits), ngroups, mat (one row of n positions per group,     *)
+(*     -1 = empty slot)]: an unselected row is scanned like a null-key row. *)
 (***************************************************************************)
 EXTENDS GBSelect, Json, IOUtils, TLC, TLCExt
 
@@ -21,7 +25,10 @@ IsRle == "runs" \in DOMAIN T
 
 TraceInit == /\ tid \in 1..Len(Traces)
              /\ SelInit(Traces[tid].kind, Traces[tid].n,
-                        IF "runs" \in DOMAIN Traces[tid] THEN <<>> ELSE Traces[tid].keys)
+                        IF "runs" \in DOMAIN Traces[tid] THEN <<>>
+                        ELSE IF "kmode" \in DOMAIN Traces[tid]       \* a masked row is skipped like a null-key row
+                             THEN [r \in 1..Len(Traces[tid].keys) |-> IF Traces[tid].sel[r] = 1 THEN Traces[tid].keys[r] ELSE Null]
+                             ELSE Traces[tid].keys)
              /\ tpc = "scan"
 
 TraceVisit == /\ tpc = "scan" /\ ~IsRle /\ Visit /\ UNCHANGED <<tid, tpc>>
@@ -82,8 +89,20 @@ RleOk == /\ T.out = "ok"
          /\ {T.rows[j] : j \in 1..Len(T.rows)} = DefRle(T.kind, T.n, T.runs)
          /\ Distinct(T.rows)
 
+(* ---- kernel mode: the (ngroups x n) matrix of row positions ---- *)
+IsKernel == "kmode" \in DOMAIN T
+RECURSIVE AscRows(_, _)
+AscRows(S, from) == \* the members of S that are >= from, ascending
+  IF {x \in S : x >= from} = {} THEN <<>>
+  ELSE LET m == CHOOSE x \in S : x >= from /\ \A y \in S : y >= from => x <= y IN <<m>> \o AscRows(S, m + 1)
+Pad(k) == [j \in 1..k |-> -1]
+KernelOk ==
+  /\ T.out = "ok" /\ scanned = Len(keys) /\ Len(T.mat) = T.ngroups
+  /\ \A g \in 1..T.ngroups :
+        LET rows == AscRows({i - 1 : i \in {x \in picked : keys[x] = g}}, 0)        \* 0-based, ascending
+        IN  T.mat[g] = (IF kind = "head" THEN rows \o Pad(narg - Len(rows)) ELSE Pad(narg - Len(rows)) \o rows)
 TraceReturn == /\ tpc = "scan"
-               /\ IF IsRle THEN RleOk ELSE IF IsByGroup THEN ByGroupOk ELSE SmallOk
+               /\ IF IsRle THEN RleOk ELSE IF IsKernel THEN KernelOk ELSE IF IsByGroup THEN ByGroupOk ELSE SmallOk
                /\ PrintT(<<"ACCEPT", tid>>)
                /\ tpc' = "done"
                /\ UNCHANGED <<svars, tid>>
